@@ -26,6 +26,8 @@ import (
 type holdCase struct {
 	Plugins int     `json:"plugins"`
 	Factor  float64 `json:"hold_factor"` // hold time as a multiple of the timeouts
+	// Leaves: the first pending plugin gives up (drops its connection) while the block is still held
+	Leaves bool `json:"first_plugin_leaves,omitempty"`
 }
 
 func runHold(prop string, c holdCase, to time.Duration) (viol []string, sig string) {
@@ -36,6 +38,9 @@ func runHold(prop string, c holdCase, to time.Duration) (viol []string, sig stri
 		}
 	}
 	what := fmt.Sprintf("%d plugin(s), block held for %.1f x the %v timeouts", c.Plugins, c.Factor, to)
+	if c.Leaves {
+		what += ", the first plugin drops its connection while pending"
+	}
 	adaptation.SetPluginRegistrationTimeout(to)
 	adaptation.SetPluginRequestTimeout(to)
 	rt, err := full.NewRuntime()
@@ -73,6 +78,15 @@ func runHold(prop string, c holdCase, to time.Duration) (viol []string, sig stri
 		}
 	}()
 	time.Sleep(time.Duration(float64(to) * c.Factor))
+	if c.Leaves {
+		// past Configure by now (the handshake takes milliseconds): pending behind the block
+		if pls[0].Stub != nil {
+			pls[0].Stub.Stop()
+		} else if pls[0].Conn != nil {
+			pls[0].Conn.Close()
+		}
+		time.Sleep(30 * time.Millisecond)
+	}
 	// a container created inside the block
 	ctr := &api.Container{Id: "c-in-block", PodSandboxId: "pod0", Name: "c"}
 	rt.AddContainer(ctr)
@@ -83,7 +97,10 @@ func runHold(prop string, c holdCase, to time.Duration) (viol []string, sig stri
 	released = true
 	mu.Unlock()
 	blk.Unblock()
-	for _, pl := range pls {
+	for i, pl := range pls {
+		if c.Leaves && i == 0 {
+			continue
+		}
 		if !pl.WaitActive(rt, 4*to+8*time.Second) {
 			add("registration-lost", "%s: plugin %s-%s, whose registration was pending while the block was held, did not become active after the block was released", what, pl.Idx, pl.Name)
 			continue
@@ -108,6 +125,24 @@ func runHold(prop string, c holdCase, to time.Duration) (viol []string, sig stri
 			add("exactly-once", "%s: plugin %s-%s learned of the container %d times (snapshot %d, creation requests %d)", what, pl.Idx, pl.Name, inSnap+got, inSnap, got)
 		}
 	}
+	if c.Leaves {
+		// the departed registration must not leave the exclusive section taken: a new block is granted
+		// and a plugin arriving now completes its registration
+		got := make(chan struct{})
+		go func() { b := rt.R.BlockPluginSync(); b.Unblock(); close(got) }()
+		select {
+		case <-got:
+		case <-time.After(4*to + 8*time.Second):
+			add("block-hangs", "%s: a new sync block was not granted after the earlier block was released", what)
+			return
+		}
+		late := full.NewPlugin("90", "late")
+		pls = append(pls, late)
+		go late.Start(rt, nil)
+		if !late.WaitActive(rt, 4*to+8*time.Second) {
+			add("registration-lost", "%s: a plugin registering afterwards did not become active", what)
+		}
+	}
 	mu.Lock()
 	if len(early) > 0 {
 		add("sync-during-block", "%s: %v synchronised while the block was held", what, early)
@@ -124,8 +159,9 @@ func engineHold(f *rep.Flags, res *rep.Result) {
 	var cases []holdCase
 	for _, n := range []int{1, 2} {
 		for _, fct := range []float64{0.3, 1.2, 3} {
-			cases = append(cases, holdCase{n, fct})
+			cases = append(cases, holdCase{Plugins: n, Factor: fct})
 		}
+		cases = append(cases, holdCase{Plugins: n, Factor: 0.5, Leaves: true})
 	}
 	for i, c := range cases {
 		if i%f.NShards != f.Shard {
